@@ -45,6 +45,108 @@ pub fn warm() -> Result<(), String> {
     cargo_check(&[]).map(|_| ())
 }
 
+/// Binary variant of the batch crate (used by the DER-level monitor): type-checks `cases` as modules of a binary crate,
+/// drops the cases that draw errors (re-checking until clean), then builds and runs the binary whose `main` (and helper
+/// functions) `body(live cases)` provides. Returns (cases that did not type-check, stdout of the run).
+pub fn check_and_run(d: &PathBuf, cases: &[(usize, String)], body: &dyn Fn(&[usize]) -> String) -> Result<(Vec<usize>, String), String> {
+    prepare_ws_at(d)?;
+    std::fs::write(
+        d.join("Cargo.toml"),
+        "[package]\nname = \"der-batch\"\nversion = \"0.0.0\"\nedition = \"2021\"\n\n[workspace]\n\n[[bin]]\nname = \"run\"\npath = \"src/main.rs\"\n\n[dependencies]\nrasn = \"0.27\"\nlazy_static = \"1.5\"\n\n[profile.dev]\ndebug = 0\nincremental = false\nopt-level = 0\n",
+    )
+    .map_err(|e| e.to_string())?;
+    if let Ok(rd) = std::fs::read_dir(d.join("src")) {
+        for e in rd.flatten() {
+            let _ = std::fs::remove_file(e.path());
+        }
+    }
+    for (n, text) in cases {
+        let (laid, _) = relayout(text).ok_or_else(|| format!("case {n} does not parse"))?;
+        std::fs::write(d.join("src").join(format!("case_{n}.rs")), laid).map_err(|e| e.to_string())?;
+    }
+    let write_main = |live: &[usize], with_body: bool| -> Result<(), String> {
+        let mut m = String::from("#![allow(warnings)]\n#![recursion_limit = \"512\"]\nextern crate alloc;\n");
+        for n in live {
+            m.push_str(&format!("mod case_{n};\n"));
+        }
+        if with_body {
+            m.push_str(&body(live));
+        } else {
+            m.push_str("fn main() {}\n");
+        }
+        std::fs::write(d.join("src/main.rs"), m).map_err(|e| e.to_string())
+    };
+    let cargo = |args: &[&str]| -> Result<std::process::Output, String> {
+        Command::new("cargo")
+            .args(args)
+            .current_dir(d)
+            .env("CARGO_NET_OFFLINE", "true")
+            .env("CARGO_TARGET_DIR", d.join("target"))
+            .stdin(Stdio::null())
+            .stdout(Stdio::piped())
+            .stderr(Stdio::piped())
+            .output()
+            .map_err(|e| format!("cannot run cargo: {e}"))
+    };
+    let mut live: Vec<usize> = cases.iter().map(|c| c.0).collect();
+    let mut failing = vec![];
+    for _round in 0..6 {
+        write_main(&live, false)?;
+        let out = cargo(&["check", "--offline", "--message-format=json", "--quiet"])?;
+        let mut bad = BTreeSet::new();
+        let mut unattributed = 0;
+        for line in String::from_utf8_lossy(&out.stdout).lines() {
+            let Ok(v) = serde_json::from_str::<Value>(line) else { continue };
+            if v["reason"] != "compiler-message" || v["message"]["level"] != "error" {
+                continue;
+            }
+            let m = &v["message"];
+            if m["message"].as_str().unwrap_or("").starts_with("aborting due to") {
+                continue;
+            }
+            let mut hit = None;
+            for s in m["spans"].as_array().into_iter().flatten() {
+                let mut cur = s;
+                for _ in 0..8 {
+                    let f = cur["file_name"].as_str().unwrap_or("");
+                    if let Some(n) = f.split("case_").nth(1).and_then(|x| x.trim_end_matches(".rs").parse::<usize>().ok()) {
+                        hit = Some(n);
+                        break;
+                    }
+                    if cur["expansion"].is_object() {
+                        cur = &cur["expansion"]["span"];
+                    } else {
+                        break;
+                    }
+                }
+                if hit.is_some() {
+                    break;
+                }
+            }
+            match hit {
+                Some(n) => {
+                    bad.insert(n);
+                }
+                None => unattributed += 1,
+            }
+        }
+        if bad.is_empty() {
+            if !out.status.success() {
+                return Err(format!("cargo check fails without attributable diagnostics ({unattributed} unattributed): {}", one_line(&String::from_utf8_lossy(&out.stderr), 300)));
+            }
+            break;
+        }
+        live.retain(|n| !bad.contains(n));
+        failing.extend(bad);
+    }
+    write_main(&live, true)?;
+    let out = cargo(&["run", "--offline", "--quiet"])?;
+    if !out.status.success() {
+        return Err(format!("runner failed: {}", one_line(&String::from_utf8_lossy(&out.stderr), 400)));
+    }
+    Ok((failing, String::from_utf8_lossy(&out.stdout).to_string()))
+}
+
 /// one rustc error diagnostic, attributed to the generated item it points into
 #[derive(Clone, Debug)]
 pub struct Diag {
@@ -308,7 +410,9 @@ fn opts(i: u64) -> GenOpts {
 
 struct Eligible {
     n: usize,
-    set: ModuleSet,
+    /// None for the hand-templated inputs (name styles, cross-module cycles): they are not minimised
+    set: Option<ModuleSet>,
+    asn1: String,
     cfg: Cfg,
     text: String,
     origin: String,
@@ -380,7 +484,8 @@ pub fn run(ctx: &Ctx) -> Report {
                     local.violations.push(Violation { sig: "c01|not-parsable-as-rust-items".into(), what: format!("warning-free output does not parse as Rust items [G(seed={seed},salt=100,idx={i})]"), replay: json!({"origin": format!("G(seed={seed},salt=100,idx={i})"), "asn1": set.render().text}) });
                 } else {
                     local.count("eligible_cases", 1);
-                    found.lock().unwrap().push(Eligible { n: i as usize, set, cfg, text: generated.clone(), origin: format!("G(seed={seed},salt=100,idx={i})") });
+                    let asn1 = set.render().text;
+                    found.lock().unwrap().push(Eligible { n: i as usize, set: Some(set), asn1, cfg, text: generated.clone(), origin: format!("G(seed={seed},salt=100,idx={i})") });
                 }
             }
             comp::Outcome::Ok { .. } => local.count("ineligible[warnings]", 1),
@@ -392,6 +497,18 @@ pub fn run(ctx: &Ctx) -> Report {
     let mut elig = found.into_inner().unwrap();
     elig.sort_by_key(|e| e.n);
     elig.truncate(want);
+    // hand-templated inputs with spellings and shapes grammar G does not produce (imported names of every spelling style,
+    // reference cycles through several modules with module-qualified references): 1 in 8 of the batch
+    for j in 0..(want as u64 / 8) {
+        let cfg = cfg_for(j * 5 + 1);
+        let srcs = crate::c12::template_sources(seed, j);
+        if let comp::Outcome::Ok { generated, warnings } = &comp::rasn(&srcs, &cfg).out {
+            if warnings.is_empty() && syn::parse_file(generated).is_ok() {
+                rep.count("eligible_cases[templates]", 1);
+                elig.push(Eligible { n: 1_000_000 + j as usize, set: None, asn1: srcs.join("\n"), cfg, text: generated.clone(), origin: format!("templates(seed={seed},idx={j})") });
+            }
+        }
+    }
     let eligible_ratio = elig.len() as f64 / want.max(1) as f64;
     rep.extra.insert("eligible_selected".into(), json!(elig.len()));
     if eligible_ratio < 0.2 {
@@ -448,7 +565,7 @@ pub fn run(ctx: &Ctx) -> Report {
                 rep.count(&format!("cases_type_checked[tagging={}]", ["automatic", "explicit", "implicit", "mixed", "mixed"][e.n % 5]), 1);
                 rep.nontrivial.insert(hash_str(&e.text));
                 if rep.samples.len() < 4 && e.n % 61 == 0 {
-                    rep.sample(json!({"origin": e.origin, "config": e.cfg.to_json(), "asn1": one_line(&e.set.render().text, 300), "rustc_errors": failing.iter().find(|f| f.0 == k).map(|f| f.1.len()).unwrap_or(0)}));
+                    rep.sample(json!({"origin": e.origin, "config": e.cfg.to_json(), "asn1": one_line(&e.asn1, 300), "rustc_errors": failing.iter().find(|f| f.0 == k).map(|f| f.1.len()).unwrap_or(0)}));
                 }
             }
             rep.count("cases_passing_rustc", live.len() as u64);
@@ -483,8 +600,10 @@ pub fn run(ctx: &Ctx) -> Report {
                     }
                     let (sig, fi) = &unlisted[k];
                     let e = &elig[failing[*fi].0];
-                    let m = shrink_for(&e.set, &e.cfg, &class_of_sig[sig], slot);
-                    witnesses.lock().unwrap().insert(sig.clone(), m.render().text);
+                    if let Some(set) = &e.set {
+                        let m = shrink_for(set, &e.cfg, &class_of_sig[sig], slot);
+                        witnesses.lock().unwrap().insert(sig.clone(), m.render().text);
+                    }
                 });
             }
         });
@@ -501,14 +620,14 @@ pub fn run(ctx: &Ctx) -> Report {
             let items: BTreeSet<String> = errs.iter().filter(|d| msg_class(&d.code, &d.msg) == class_of_sig[sig]).filter_map(|d| d.item.clone()).collect();
             rep.violations.push(Violation {
                 sig: sig.clone(),
-                what: format!("rustc rejects warning-free bindings: {} in item(s) {:?} ({} errors in case) [{}] cfg={} :: {}", class_of_sig[sig], items, errs.len(), e.origin, e.cfg.to_json(), one_line(wit.map(|s| s.as_str()).unwrap_or(&e.set.render().text), 600)),
-                replay: json!({"origin": e.origin, "config": e.cfg.to_json(), "asn1": e.set.render().text, "minimised": wit, "errors": errs.iter().take(8).map(|x| format!("{}: {} @{:?} {:?}", x.code, x.msg, x.item, x.features)).collect::<Vec<_>>()}),
+                what: format!("rustc rejects warning-free bindings: {} in item(s) {:?} ({} errors in case) [{}] cfg={} :: {}", class_of_sig[sig], items, errs.len(), e.origin, e.cfg.to_json(), one_line(wit.map(|s| s.as_str()).unwrap_or(&e.asn1), 600)),
+                replay: json!({"origin": e.origin, "config": e.cfg.to_json(), "asn1": e.asn1, "minimised": wit, "errors": errs.iter().take(8).map(|x| format!("{}: {} @{:?} {:?}", x.code, x.msg, x.item, x.features)).collect::<Vec<_>>()}),
             });
         }
     }
     if rep.samples.is_empty() {
         if let Some(e) = elig.first() {
-            rep.sample(json!({"origin": e.origin, "config": e.cfg.to_json(), "asn1": one_line(&e.set.render().text, 300)}));
+            rep.sample(json!({"origin": e.origin, "config": e.cfg.to_json(), "asn1": one_line(&e.asn1, 300)}));
         }
     }
     rep
